@@ -16,4 +16,4 @@ for chk in "$@"; do
   echo "$id $chk rc=$rc viol=$(echo "$o" | grep -c '^VIOLATION') | $(echo "$o" | grep '^VIOLATION' | head -2 | cut -c1-260)"
   [ $rc = 2 ] && echo "$o" | tail -5
 done
-git -C /repo worktree remove --force $wt; rm -rf $tdir $V/work/alt/$tag $V/.target/alt-$tag.lock
+git -C /repo worktree remove --force $wt; rm -rf $tdir $V/work/alt/$tag $V/.target/alt-$tag*
